@@ -59,6 +59,15 @@ type mCase struct {
 	Lits   []string   `json:"lits"`
 	Sigs   []mSigSpec `json:"sigs"`
 	Thetas []int      `json:"thetas"` // 1e-9 units
+	// Alts: other functions with the SAME block/loop/call profile (same topology hash) but other string
+	// literals / entropy, scanned on the same scanner right after the main one (and before it when AltFirst)
+	Alts     []mAlt `json:"alts,omitempty"`
+	AltFirst bool   `json:"alt_first,omitempty"`
+}
+
+type mAlt struct {
+	Te   int      `json:"te"`
+	Lits []string `json:"lits"`
 }
 
 var presentCalls = []string{"net.Dial", "os/exec.Command"}
@@ -200,25 +209,63 @@ func matchRun(args []string) error {
 			if err := js.SetThreshold(theta); err != nil {
 				return err
 			}
-			emit := func(be, mode string, rs []detection.ScanResult, applicable bool) {
-				tw.emit(map[string]any{"ev": "scan", "be": be, "mode": mode, "theta": th, "key": c.Key, "calls": calls,
-					"sigs": sigEv, "alerts": alertsOf(rs), "applicable": applicable, "fresh": first})
+			scanBoth := func(tt *topology.FunctionTopology, key string) error {
+				full, err := peb.ScanTopology(tt, "fn")
+				if err != nil {
+					return err
+				}
+				direct := func(rs []detection.ScanResult) []map[string]any {
+					out := alertsOf(rs)
+					for i, r := range rs {
+						for _, sg := range sigs {
+							if sg.ID == r.SignatureID {
+								d := detection.MatchSignature(tt, "fn", sg, float64(c.Ctol)/4)
+								dc := -1
+								if !math.IsNaN(d.Confidence) && !math.IsInf(d.Confidence, 0) {
+									dc = int(math.Round(d.Confidence * 1e9))
+								}
+								out[i]["direct"] = dc
+							}
+						}
+					}
+					return out
+				}
+				tw.emit(map[string]any{"ev": "scan", "be": "pebble", "mode": "full", "theta": th, "key": key, "calls": calls,
+					"sigs": sigEv, "alerts": direct(full), "applicable": true, "fresh": first})
 				first = false
+				ex, err := peb.ScanTopologyExact(tt, "fn")
+				if err != nil {
+					return err
+				}
+				var exl []detection.ScanResult
+				if ex != nil {
+					exl = append(exl, *ex)
+				}
+				tw.emit(map[string]any{"ev": "scan", "be": "pebble", "mode": "exact", "theta": th, "key": key, "calls": calls,
+					"sigs": sigEv, "alerts": direct(exl), "applicable": true, "fresh": false})
+				return nil
 			}
-			full, err := peb.ScanTopology(t, "fn")
-			if err != nil {
+			alts := func() error {
+				for ai, a := range c.Alts {
+					if err := scanBoth(mTopo(c.Blocks, c.Loops, a.Te, c.Calls, a.Lits), fmt.Sprintf("%s#alt%d", c.Key, ai)); err != nil {
+						return err
+					}
+				}
+				return nil
+			}
+			if c.AltFirst {
+				if err := alts(); err != nil {
+					return err
+				}
+			}
+			if err := scanBoth(t, c.Key); err != nil {
 				return err
 			}
-			emit("pebble", "full", full, true)
-			ex, err := peb.ScanTopologyExact(t, "fn")
-			if err != nil {
-				return err
+			if !c.AltFirst {
+				if err := alts(); err != nil {
+					return err
+				}
 			}
-			var exl []detection.ScanResult
-			if ex != nil {
-				exl = append(exl, *ex)
-			}
-			emit("pebble", "exact", exl, true)
 		}
 		peb.Close()
 		if c.Ctol == 2 { // the JSON scanner has no tolerance setter: its fixed 0.5 is the case ctol = 2 quarters
